@@ -65,7 +65,7 @@ def finish_own(ctx: Ctx, rule="R-C14-FINISH-OWN") -> None:
                 recv = c.func.value
                 if isinstance(recv, ast.Attribute) and recv.attr == "_id_to_delivery_tag":
                     continue  # keyed pop of this consumer's own message ids
-                drained.add(unparse(recv))
+                drained.add(C.utext(fin, recv))
         if not ctx.check(bool(drained), rule, fin, f"{fin.short()}: drains a container", str(sorted(drained)), f"{fin.short()} returns nothing", instance=f"{q.split('.')[-1]}: drains"):
             continue
         for d in sorted(drained):
